@@ -85,6 +85,20 @@ def hostile_env(cargo=False):
          # names the workloads themselves use for the variables they compute with: the process environment is not an input
          "A": "from-the-process-environment", "B": "from-the-process-environment", "FOO": "from-the-process-environment", "CC": "from-the-process-environment",
          "LD_LIBRARY_PATH_VP": "x", "CPATH": "/from/the/process/environment", "LIBRARY_PATH": "/from/the/process/environment", "PKG_CONFIG_PATH": "/from/the/process/environment"}
+    # names that the ambient-read monitor saw the code under test ask for during the first pass of this check (see ./check): hostile values
+    try:
+        for name in json.loads(os.environ.get("VP_EXTRA_HOSTILE_ENV", "[]")):
+            e[name] = os.path.join(d, "decoy") if any(t in name.upper() for t in ("DIR", "PATH", "HOME", "ROOT", "FILE")) else "https://vp-hostile.invalid/%s/" % name.lower()
+    except ValueError:
+        pass
+    if not cargo:
+        # the ambient-read monitor rides along in every executor that is not a compiler driver (an explicit LD_PRELOAD of a workload - the
+        # fault injector - takes its place there)
+        shim = os.path.join(VERIF, "shim", "envshim.so")
+        if os.path.exists(shim):
+            os.makedirs(os.path.join(d, "envreads"), exist_ok=True)
+            e["LD_PRELOAD"] = shim
+            e["VP_ENVSHIM_LOG"] = os.path.join(d, "envreads", "%d.log" % os.getpid())
     if cargo:
         real_home = os.environ.get("HOME", "/root")
         e["CARGO_HOME"] = os.environ.get("CARGO_HOME", os.path.join(real_home, ".cargo"))
@@ -182,6 +196,19 @@ def build_envshim():
 
 ENV_READS_IGNORED = ("VP_", "VPBP_", "RUST_", "LD_", "MALLOC_", "GLIBC_", "LIBC_", "TZ", "TMPDIR", "LANG", "LC_", "LANGUAGE", "NLSPATH")
 ENV_INPUTS = {"CNB_BUILDPACK_DIR", "CNB_TARGET_OS", "CNB_TARGET_ARCH", "CNB_TARGET_ARCH_VARIANT", "CNB_TARGET_DISTRO_NAME", "CNB_TARGET_DISTRO_VERSION"}      # the documented inputs of the phases
+
+
+def collected_env_reads():
+    """the variable names all executors of this check run asked libc for (hostile_env routes them to <ambient>/envreads/*.log)"""
+    d = os.path.join(ambient_dir(), "envreads")
+    names = set()
+    if os.path.isdir(d):
+        for fn in os.listdir(d):
+            try:
+                names.update(l.strip() for l in open(os.path.join(d, fn), errors="replace"))
+            except OSError:
+                pass
+    return filter_env_reads(names)
 
 
 def filter_env_reads(names):
